@@ -65,7 +65,8 @@ def nhp_request_ok(post, base_url, endpoint, session_id):
 
 
 NHP_APP_KEY = "3742e9e5842d4ad59c2db887e12449f9"
-REQ_RAISES = {CLOUD + "CloudError": {"post": {"request_as_the_server_verifies_it": "all(nhp_request_ok(p, self._base_url, EP, old(self._session_id)) for p in events('api_post'))"}},
+REQ_RAISES = {CLOUD + "CloudError": {"emits": {"token_req": "udpid"},
+                                     "post": {"request_as_the_server_verifies_it": "all(nhp_request_ok(p, self._base_url, EP, old(self._session_id)) for p in events('api_post'))"}},
               "builtins.KeyError": {}, "builtins.ValueError": {}, "builtins.TypeError": {}}
 
 contract(CLOUD + "BaseCloud.get_token",
@@ -110,11 +111,12 @@ contract(DISC + "Discover._authenticate_device",
          params={"dev": "obj:msmart.base_device.Device"},
          requires=["0 <= dev._id <= 281474976710655"],
          use={"msmart.base_device.Device.authenticate": "msmart.base_device.Device.authenticate#cloud"},
-         raises={CLOUD + "CloudError": {}, "builtins.KeyError": {}, "builtins.ValueError": {}, "builtins.TypeError": {}},
+         raises={CLOUD + "CloudError": {"post": {"gives_up_only_after_both_orders": "len(events('token_req')) != 1"}},
+                 "builtins.KeyError": {}, "builtins.ValueError": {}, "builtins.TypeError": {}},
          post_let={"Q": "events('token_req')", "TR": "events('token_res')", "A": "events('auth')"},
          ensures={"little_endian_id_first": "len(Q) >= 1 and Q[0] == Security.udpid(dev._id.to_bytes(6, 'little')).hex()",
                   "big_endian_id_second": "implies(len(Q) == 2, Q[1] == Security.udpid(dev._id.to_bytes(6, 'big')).hex())",
-                  "at_most_both_orders": "len(Q) <= 2 and len(A) == len(Q) and len(TR) == len(Q)",
+                  "at_most_both_orders": "len(Q) <= 2 and len(A) == len(TR) and len(TR) <= len(Q)",
                   "gives_up_only_after_both_orders": "implies(not result, len(Q) == 2)",
                   "credentials_are_the_ones_returned_for_that_id": "all(same_object(a[0], t[0]) and same_object(a[1], t[1]) for a, t in zip(A, TR))"})
 
